@@ -88,7 +88,9 @@ def run_check(prop, tier, replay_path=None):
     with C.Work(prop) as work:
         # ---- 1. proof obligations
         # only what this property needs: a broken module elsewhere in the library must not take this property down
-        ok_build, log = C.lean_build(list(meta["modules"]) + list(META.get("drivers", [])))
+        from harness import translib as _T
+        drivers = list(META.get("drivers", [])) + (["impcheck"] if prop in _T.PROP_SENT and "impcheck" not in META.get("drivers", []) else [])
+        ok_build, log = C.lean_build(list(meta["modules"]) + drivers)
         thms = meta["theorems"]
         if ok_build:
             audit = C.lean_audit(prop, thms, meta["modules"], work)
@@ -109,6 +111,8 @@ def run_check(prop, tier, replay_path=None):
             if not ok_build and not all(C.driver(d).exists() for d in META.get("drivers", [])):
                 raise RuntimeError("model drivers could not be built: " + log[-400:])
             corr = mod.replay(ctx) if rep else mod.run(ctx)
+            if not rep:
+                _T.sentence_obligations(ctx, prop, corr)
         except C.CompileError as e:
             corr = Corr()
             corr.add_obl("harness_compiles", 1, 1)
